@@ -948,6 +948,24 @@ func init() {
 						// `s.Jitter = orDefault(s.Jitter, defaults.Jitter, fallback)`: the value made when both are missing
 						if cs := coalesceOf(an.Callee(hc)); cs != nil {
 							for _, fv := range cs.fresh {
+								if ia, isIA := an.Strip(fv).(*ssa.IndexAddr); isIA {
+									// the caller's own fallback (`orDefault(own, def, 0)` with a variadic last parameter)
+									if hp, isP := an.Strip(ia.X).(*ssa.Parameter); isP {
+										if i := an.ParamIndex(hp); i >= 0 && i < len(hc.Call.Args) {
+											els := varargElems(hc.Call.Args[i])
+											n++
+											okZero := len(els) > 0
+											for _, el := range els {
+												k, isK := an.Strip(el).(*ssa.Const)
+												if !isK || k.Value == nil || k.Float64() != 0 {
+													okZero = false
+												}
+											}
+											r.Check(okZero, core.FuncName(fn)+"#missing-jitter=0", an.Pos(c, in), "missing jitter defaults to 0", "a stage without a jitter setting gets a non-zero jitter: zero jitter is no longer the identity for such stages")
+										}
+									}
+									continue
+								}
 								fa, isFA := an.Strip(fv).(*ssa.Alloc)
 								if !isFA {
 									continue
